@@ -147,6 +147,19 @@ def strip_vis_attrs(sn: Snippet):
     sn.rw('R7', r'\bconst\s+(?=fn\b)', '')
 
 
+RISKY_DROPPED = [(r'\.unwrap\(\)', '.unwrap()'), (r'\.expect\(', '.expect('), (r'\.ref_t\(\)', '.ref_t()'), (r'[\w\)\]]\[[^\]]+\]', 'indexing'),
+                 (r'\bunreachable!|\bpanic!|\btodo!', 'diverging macro')]
+
+
+def guard_dropped(sn: Snippet, text, what):
+    """R3/R6 drop the ARGUMENTS of a message/error construction together with the message. An argument whose evaluation can panic
+    (unwrap, expect, indexing, ValueObj::ref_t, ...) must not disappear from the verified text silently: undecided (exit 2)."""
+    mask = make_mask(text)
+    for (pat, name) in RISKY_DROPPED:
+        if re.search(pat, mask):
+            raise Undecided("%s: rule R3 would drop an argument that can panic (%s) inside %s: `%s`" % (sn.label, name, what, ' '.join(text.split())[:120]))
+
+
 def diagnostics(sn: Snippet):
     """R3: message-building macros -> opaque string."""
     def repl_macro(name, replacement):
@@ -157,6 +170,7 @@ def diagnostics(sn: Snippet):
             if not m:
                 break
             cp = match_close(mask, m.end() - 1)
+            guard_dropped(sn, sn.text[m.end():cp], name + '!')
             sn.replace_range('R3', m.start(), cp + 1, replacement, "%s!(..) -> %s" % (name, replacement))
     repl_macro('switch_lang', 'ext_msg()')
     repl_macro('format', 'ext_msg()')
